@@ -381,4 +381,41 @@ def legacyText (pre : List Str) (gs : List FGroup) (nl : Bool) : Str :=
 def legacyAsIfText (pre : List Str) (gs : List FGroup) (nl : Bool) : Str :=
   joinNL (pre ++ gs.flatMap FGroup.block) ++ (if nl then [10] else [])
 
+/-! ## arguments as written -/
+
+/-- an argument as written: its value, and whether it is written between double quotes -/
+structure WArg where
+  val : Str
+  quoted : Bool
+  deriving Repr
+
+/-- inside quotes a double quote is written `\"` -/
+def escQ (v : Str) : Str := v.flatMap fun c => if c == 34 then [92, 34] else [c]
+
+def WArg.text (a : WArg) : Str := if a.quoted then 34 :: escQ a.val ++ [34] else a.val
+
+/-- an unquoted argument: not empty; no white space, comma, quote or backslash; none of the tokeniser's three
+protection characters -/
+def plainVal (v : Str) : Bool :=
+  !v.isEmpty && v.all fun c => !Str.isSpace c && c != 44 && c != 34 && c != 92 && c != 1 && c != 2 && c != 3
+
+/-- a quoted argument: anything — blanks, commas, double quotes, nothing at all — except a backslash and the
+three protection characters -/
+def quotedVal (v : Str) : Bool := v.all fun c => c != 92 && c != 1 && c != 2 && c != 3
+
+def WArg.ok (a : WArg) : Bool := if a.quoted then quotedVal a.val else plainVal a.val
+
+/-- between two arguments: blanks and commas, at least one -/
+def sepOK (s : Str) : Bool := !s.isEmpty && s.all fun c => c == 32 || c == 44
+/-- before the first and after the last argument: blanks -/
+def padOK (s : Str) : Bool := s.all (· == 32)
+
+/-- the text between the parentheses of a command -/
+def argsText (pad1 : Str) (first : WArg) (rest : List (Str × WArg)) (pad2 : Str) : Str :=
+  pad1 ++ first.text ++ rest.flatMap (fun p => p.1 ++ p.2.text) ++ pad2
+
+/-- the whole list is one quoted string with no quote inside: the classic spelling of a word list -/
+def wholeQuoted (pad1 : Str) (first : WArg) (rest : List (Str × WArg)) (pad2 : Str) : Bool :=
+  pad1.isEmpty && pad2.isEmpty && rest.isEmpty && first.quoted && !first.val.contains 34
+
 end EupsModel.C11Spec
